@@ -45,6 +45,182 @@ def match_known(known, stage, backend, payload):
     return None
 
 
+# ---- shapes the analyzer accepts although they are ill-formed (C08's findings) for which the
+# ---- Rust generator then emits code that does not type-check: listed, matched by shape + error
+
+def _expand(ast, fields, depth=0):
+    groups = {d["id"]: d for d in ast["declarations"] if d["kind"] == "group_declaration"}
+    out = []
+    for f in fields:
+        if f["kind"] == "group_field" and f["group_id"] in groups and depth < 8:
+            out += _expand(ast, groups[f["group_id"]]["fields"], depth + 1)
+        else:
+            out.append(f)
+    return out
+
+
+def shape_size_after_array(ast):
+    for d in ast["declarations"]:
+        fs = _expand(ast, d.get("fields", []) or [])
+        seen = set()
+        for f in fs:
+            if f["kind"] == "array_field":
+                seen.add(f["id"])
+            if f["kind"] in ("size_field", "count_field", "elementsize_field") and f.get("field_id") in seen:
+                return True
+    return False
+
+
+def shape_fixed_range_tag(ast):
+    enums = {d["id"]: d for d in ast["declarations"] if d["kind"] == "enum_declaration"}
+    for d in ast["declarations"]:
+        for f in _expand(ast, d.get("fields", []) or []):
+            if f["kind"] == "fixed_field" and f.get("enum_id") in enums:
+                if any(t["id"] == f.get("tag_id") and "value" not in t for t in enums[f["enum_id"]]["tags"]):
+                    return True
+    return False
+
+
+def _all_group_fields(ast):
+    for d in ast["declarations"]:
+        stack = list(d.get("fields", []) or [])
+        for f in stack:
+            if f["kind"] == "group_field":
+                yield f
+
+
+def shape_group_constraint_names_non_value_tag(ast):
+    """`G { x = T }` where T is a range or the default tag: inlined as a fixed field (see F53)"""
+    enums = {d["id"]: d for d in ast["declarations"] if d["kind"] == "enum_declaration"}
+    groups = {d["id"]: d for d in ast["declarations"] if d["kind"] == "group_declaration"}
+    for gf in _all_group_fields(ast):
+        g = groups.get(gf["group_id"])
+        for c in gf.get("constraints", []) or []:
+            if not (g and c.get("tag_id")):
+                continue
+            for f in _expand(ast, g["fields"]):
+                e = enums.get(f.get("type_id"))
+                if f.get("id") == c["id"] and e and any(t["id"] == c["tag_id"] and "value" not in t for t in e["tags"]):
+                    return True
+    return False
+
+
+def shape_duplicate_field_through_groups(ast):
+    for d in ast["declarations"]:
+        if d["kind"] == "group_declaration":
+            continue
+        ids = [f["id"] for f in _expand(ast, d.get("fields", []) or []) if f.get("id")]
+        if len(ids) != len(set(ids)):
+            return True
+    return False
+
+
+def _chain(ast, d):
+    by = {x["id"]: x for x in ast["declarations"] if "id" in x}
+    out, hops = [], 0
+    while d is not None and hops < 32:
+        out.append(d)
+        d = by.get(d.get("parent_id")) if d.get("parent_id") else None
+        hops += 1
+    return out
+
+
+def shape_constraint_on_optional(ast):
+    for d in ast["declarations"]:
+        cs = {c["id"] for c in d.get("constraints", []) or []}
+        if cs and any(f.get("id") in cs and f.get("cond") for a in _chain(ast, d)[1:] for f in _expand(ast, a.get("fields", []) or [])):
+            return True
+    return False
+
+
+def shape_constraint_names_default_tag(ast):
+    enums = {d["id"]: d for d in ast["declarations"] if d["kind"] == "enum_declaration"}
+    for d in ast["declarations"]:
+        for c in d.get("constraints", []) or []:
+            if not c.get("tag_id"):
+                continue
+            for a in _chain(ast, d)[1:]:
+                for f in _expand(ast, a.get("fields", []) or []):
+                    e = enums.get(f.get("type_id"))
+                    if f.get("id") == c["id"] and e and any(t["id"] == c["tag_id"] and "value" not in t and "range" not in t for t in e["tags"]):
+                        return True
+    return False
+
+
+def shape_unsized_payload_then_dynamic(ast):
+    """an unsized payload / body followed (in the same declaration) by a field whose size is
+    not a constant: optional, array without constant size, struct of dynamic size, padding"""
+    for d in ast["declarations"]:
+        fs = _expand(ast, d.get("fields", []) or [])
+        sized = {f.get("field_id") for f in fs if f["kind"] == "size_field"}
+        for i, f in enumerate(fs):
+            if f["kind"] in ("payload_field", "body_field") and not ({"_payload_", "_body_"} & sized):
+                for g in fs[i + 1:]:
+                    if g.get("cond") or g["kind"] in ("padding_field",) or (g["kind"] == "array_field" and g.get("size") is None) \
+                            or g["kind"] == "typedef_field":
+                        return True
+    return False
+
+
+def shape_elementsize_of_non_struct(ast):
+    structs = {d["id"] for d in ast["declarations"] if d["kind"] == "struct_declaration"}
+    for d in ast["declarations"]:
+        fs = _expand(ast, d.get("fields", []) or [])
+        es = {f["field_id"] for f in fs if f["kind"] == "elementsize_field"}
+        if any(f["kind"] == "array_field" and f["id"] in es and f.get("type_id") not in structs for f in fs):
+            return True
+    return False
+
+
+def shape_huge_array(ast):
+    return any(f["kind"] == "array_field" and (f.get("size") or 0) >= (1 << 31)
+               for d in ast["declarations"] for f in d.get("fields", []) or [])
+
+
+def needs_user_glue(ast):
+    """custom fields without a width and checksums are types the USER provides"""
+    return any((d["kind"] == "custom_field_declaration" and not d.get("width")) or d["kind"] == "checksum_declaration"
+               for d in ast["declarations"])
+
+
+SHAPES = {k[6:]: v for k, v in globals().items() if k.startswith("shape_")}
+
+
+def rustc_metadata(texts, workers=16):
+    """type-check generated Rust modules (rustc --emit=metadata against the pdl-runtime the
+    harness crate was built with): [(ok, first error lines)]"""
+    import concurrent.futures
+    import hashlib
+    import subprocess
+    deps = common.CACHE / "target-harness" / "debug" / "deps"
+    rt = sorted(deps.glob("libpdl_runtime-*.rlib"), key=lambda p: p.stat().st_mtime)
+    by = sorted(deps.glob("libbytes-*.rlib"), key=lambda p: p.stat().st_mtime)
+    if not rt or not by:
+        return None
+    work = common.CACHE / "c10"
+    work.mkdir(exist_ok=True)
+
+    def one(it):
+        k, t = it
+        h = "%d_%s" % (k, hashlib.sha1(t.encode()).hexdigest()[:12])
+        src = work / f"{h}.rs"
+        src.write_text(t)
+        p = subprocess.run(["rustc", "--edition", "2021", "--crate-type", "lib", "--emit=metadata", "-A", "warnings",
+                            "-L", f"dependency={deps}",
+                            "--extern", f"pdl_runtime={rt[-1]}", "--extern", f"bytes={by[-1]}",
+                            "--crate-name", f"m{h}", str(src), "-o", str(work / f"{h}.rmeta")],
+                           capture_output=True, timeout=300)
+        for f in (src, work / f"{h}.rmeta"):
+            try:
+                f.unlink()
+            except OSError:
+                pass
+        err = [l for l in p.stderr.decode(errors="replace").split("\n") if l.startswith("error")]
+        return p.returncode == 0, err[:3]
+    with concurrent.futures.ThreadPoolExecutor(max_workers=workers) as ex:
+        return list(ex.map(one, list(enumerate(texts))))
+
+
 def run(tier, seed):
     binary = langs.drv_binary()
     common.build_oracle()
@@ -116,10 +292,13 @@ def run(tier, seed):
     # well-formed descriptions only: what the analyzer accepts although it is ill-formed is
     # C08's subject, and backends are entitled to assume the language rules
     pool = [(n, t) for n, t in accepted if n.startswith("wf")][: (120 if quick else 1500)]
-    wf_extra = [(f"wfx{i}", pdlast.to_pdl(ad.wellformed(rng))) for i in range(60 if quick else 600)]
+    wf_asts = [(f"wfx{i}", ad.wellformed(rng)) for i in range(60 if quick else 600)]
+    wf_extra = [(n, pdlast.to_pdl(a)) for n, a in wf_asts]
     ok_extra = ad.run_impl([t for _, t in wf_extra], "analyze")
     pool += [x for x, r in zip(wf_extra, ok_extra) if r[0] == "ok"]
     pool += [(n, pdlast.to_pdl(a)) for n, a in rustcodec.modules_for(tier, seed)]
+    rc = rustcodec.collect(tier, seed)      # builds the harness crate, hence pdl-runtime, from the working tree
+    rust_texts = {}
     for backend in BACKENDS:
         reqs = [(f"g{i}", "generate", t, backend) for i, (_, t) in enumerate(pool)]
         out = drv.run(binary, reqs, timeout_s=180)
@@ -128,6 +307,8 @@ def run(tier, seed):
             counts["evaluations"] += 1
             counts[f"gen:{backend}:{s}"] += 1
             if s == "ok":
+                if backend == "rust":
+                    rust_texts[i] = p["text"]
                 if backend == "python":
                     try:
                         compile(p["text"], f"{name}.py", "exec")
@@ -144,8 +325,38 @@ def run(tier, seed):
         if pool and len(samples) < 5:
             samples.append({"backend": backend, "description": pool[0][0]})
 
+    # ---- (iii-b) ... and the Rust emitted for EVERY description the analyzer accepts type-checks
+    # (not only the well-formed pool: whatever is accepted must become compilable code)
+    # (the absurd / chaos / enums corpora are ill-formed on purpose: what the analyzer lets
+    # through there is C08's subject and an endless tail of generator failures)
+    extra = [(n, t) for n, t in accepted if not n.startswith(("wf", "absurd", "chaos", "enums"))][: (400 if quick else 4000)]
+    out = drv.run(binary, [(f"x{i}", "generate", t, "rust") for i, (_, t) in enumerate(extra)], timeout_s=240)
+    asts = {ds[i][0]: pdlast.strip_loc(parsed[i][1]["ast"]) for i in keep}
+    asts.update(dict(wf_asts))
+    asts.update(dict(rustcodec.modules_for(tier, seed)))
+    comp = [(n, t, rust_texts[i]) for i, (n, t) in enumerate(pool) if i in rust_texts and not (n in asts and needs_user_glue(asts[n]))]
+    for i, (n, t) in enumerate(extra):
+        s, p = out.get(f"x{i}", ("missing", None))
+        counts[f"gen-any:rust:{s}"] += 1
+        if s == "ok" and not (n in asts and needs_user_glue(asts[n])):
+            comp.append((n, t, p["text"]))
+    res = rustc_metadata([c[2] for c in comp])
+    if res is None:
+        raise common.Infra("pdl-runtime rlib of the harness build not found")
+    for (n, t, _), (ok, err) in zip(comp, res):
+        counts["evaluations"] += 1
+        counts["rustc:" + ("ok" if ok else "error")] += 1
+        if not ok:
+            a = asts.get(n)
+            k = next((x for x in known if x.get("property") == "C10" and x.get("rustc")
+                      and a is not None and SHAPES[x["rustc"]["shape"]](a)
+                      and any(m in " ".join(err) for m in x["rustc"]["error_contains"])), None)
+            if k:
+                known_hits.setdefault(k["id"], k["what"])
+                counts["known"] += 1
+            else:
+                violations.append({"kind": "generated-rust-does-not-type-check", "name": n, "text": t[:3000], "observed": err})
     # ---- (iv) what was generated for the shared corpora compiles (rustc, g++, javac, CPython)
-    rc = rustcodec.collect(tier, seed)
     for profile, rep in (rc.get("report") or {}).items():
         for kind in ("failed_modules", "uncompilable_modules"):
             for name, why in (rep.get(kind) or {}).items():
